@@ -21,7 +21,7 @@ for pid in props:
         "level_claimed": {"category": "proof", "text": e["text"], "design_ref": e.get("design_ref", f"DESIGN.md §8 {pid}")},
         "level_note": e["note"],
         "technique": e.get("technique", ("Lean 4 theorems over a hand-written executable model and over Lean tables regenerated from /repo's source on every run (translator) + differential correspondence with the real code"
-                                          if (V / "lean" / "GlotaranModel" / "Generated" / f"{pid}.lean").exists() else
+                                          if any((V / "lean" / "GlotaranModel" / "Generated").glob(f"{pid}*.lean")) else
                                           "Lean 4 theorems over a hand-written executable model + differential correspondence with the real code")),
     })
 m = {
